@@ -4,8 +4,10 @@
      - markers "acq"/"rel" written by the workload inside its critical sections: critical sections
        of the (single) mutex never overlap;
      - wl_append / wakeup / wakeup_all (logged under the wait-table lock): queues are FIFO, a wake-up
-       removes exactly the head, wakeup_all removes exactly one whole queue in order; a queue is
-       identified by its head thread, so the check is insensitive to collections moving the keys;
+       removes exactly the head, wakeup_all removes exactly one whole queue in order; queues are keyed by the
+       address of their mutex / condition object as logged; wl_rekey records (logged under the same lock when a
+       moving collection rewrites the keys) keep the model's keys exact, so a wake-up that finds NOBODY while the
+       model has waiters under that key is rejected (lost wake-up);
      - block: a thread is queued iff the lock word still had the expected value;
      - unblocked: a thread returns from blocking only after a wake-up cleared its flag (no spurious
        return), and "joined" markers never outnumber "fin" markers (join returns after the end).    *)
@@ -17,9 +19,12 @@ vars == <<holder, qs, flagged, fin, joined, l>>
 Ev == Rec[l]
 Is(name) == Ev.ev = name
 Mark(m) == Is("mark") /\ Ev.m = m
-QWithHead(h) == CHOOSE s \in qs : Head(s) = h
-QWith(x) == CHOOSE s \in qs : \E k \in 1..Len(s) : s[k] = x
+\* qs: set of wait queues [k |-> key of the wait table (the object's address, as logged), q |-> sequence of thread ids]
+QWithHead(h) == CHOOSE s \in qs : Head(s.q) = h
+QWith(x) == CHOOSE s \in qs : \E k \in 1..Len(s.q) : s.q[k] = x
 Without(s, x) == SelectSeq(s, LAMBDA y : y # x)
+Elems(s) == {s[k] : k \in 1..Len(s)}
+AtKey(key) == {s \in qs : s.k = key}
 Init == holder = 0 /\ qs = {} /\ flagged = {} /\ fin = 0 /\ joined = 0 /\ l = 1
 Step ==
   \/ Mark("acq") /\ holder = 0 /\ holder' = Ev.t /\ UNCHANGED <<qs, flagged, fin, joined>>
@@ -28,31 +33,36 @@ Step ==
   \/ Mark("joined") /\ joined < fin /\ joined' = joined + 1 /\ UNCHANGED <<holder, qs, flagged, fin>>
   \/ Is("block") /\ (Ev.queued <=> Ev.word = Ev.expected) /\ UNCHANGED <<holder, qs, flagged, fin, joined>>
   \/ /\ Is("wl_append") /\ Ev.who \notin flagged
-     /\ \A s \in qs : \A k \in 1..Len(s) : s[k] # Ev.who
-     /\ IF Ev.head = 0 THEN qs' = qs \cup {<<Ev.who>>}
-        ELSE /\ \E s \in qs : Head(s) = Ev.head
-             /\ qs' = (qs \ {QWithHead(Ev.head)}) \cup {Append(QWithHead(Ev.head), Ev.who)}
+     /\ \A s \in qs : Ev.who \notin Elems(s.q)
+     /\ IF Ev.head = 0 THEN /\ AtKey(Ev.key) = {}                     \* a new queue only if the object has none
+                             /\ qs' = qs \cup {[k |-> Ev.key, q |-> <<Ev.who>>]}
+        ELSE /\ \E s \in qs : Head(s.q) = Ev.head /\ s.k = Ev.key
+             /\ LET s == QWithHead(Ev.head) IN qs' = (qs \ {s}) \cup {[s EXCEPT !.q = Append(s.q, Ev.who)]}
      /\ flagged' = flagged \cup {Ev.who} /\ UNCHANGED <<holder, fin, joined>>
   \/ /\ Is("wakeup")
-     /\ IF Ev.woken = 0 THEN UNCHANGED <<qs, flagged>>
-        ELSE /\ \E s \in qs : IF Strict THEN Head(s) = Ev.woken ELSE \E k \in 1..Len(s) : s[k] = Ev.woken
-             /\ LET s == QWith(Ev.woken) IN qs' = (qs \ {s}) \cup (IF Len(s) > 1 THEN {Without(s, Ev.woken)} ELSE {})
+     /\ IF Ev.woken = 0 THEN AtKey(Ev.key) = {} /\ UNCHANGED <<qs, flagged>>      \* nobody found => nobody was waiting on that object
+        ELSE /\ \E s \in AtKey(Ev.key) : IF Strict THEN Head(s.q) = Ev.woken ELSE Ev.woken \in Elems(s.q)
+             /\ LET s == QWith(Ev.woken) IN qs' = (qs \ {s}) \cup (IF Len(s.q) > 1 THEN {[s EXCEPT !.q = Without(s.q, Ev.woken)]} ELSE {})
              /\ flagged' = flagged \ {Ev.woken}
      /\ UNCHANGED <<holder, fin, joined>>
   \/ /\ Is("wakeup_all")
-     /\ IF Len(Ev.woken) = 0 THEN UNCHANGED <<qs, flagged>>
-        ELSE /\ \E s \in qs : (IF Strict THEN s = Ev.woken ELSE {s[k] : k \in 1..Len(s)} = {Ev.woken[k] : k \in 1..Len(Ev.woken)})
+     /\ IF Len(Ev.woken) = 0 THEN AtKey(Ev.key) = {} /\ UNCHANGED <<qs, flagged>>
+        ELSE /\ \E s \in AtKey(Ev.key) : (IF Strict THEN s.q = Ev.woken ELSE Elems(s.q) = Elems(Ev.woken))
              /\ qs' = qs \ {QWith(Ev.woken[1])}
-             /\ flagged' = flagged \ {Ev.woken[k] : k \in 1..Len(Ev.woken)}
+             /\ flagged' = flagged \ Elems(Ev.woken)
      /\ UNCHANGED <<holder, fin, joined>>
+  \/ /\ Is("wl_rekey")              \* a moving collection rewrote keys of the wait table in place: <<old, new>> pairs, simultaneously
+     /\ LET New(key) == IF \E m \in Elems(Ev.moved) : m[1] = key THEN (CHOOSE m \in Elems(Ev.moved) : m[1] = key)[2] ELSE key
+        IN qs' = {[s EXCEPT !.k = New(s.k)] : s \in qs}
+     /\ UNCHANGED <<holder, flagged, fin, joined>>
   \/ Is("unblocked") /\ Ev.t \notin flagged /\ UNCHANGED <<holder, qs, flagged, fin, joined>>
   \/ Is("reset") /\ holder' = 0 /\ qs' = {} /\ flagged' = {} /\ fin' = 0 /\ joined' = 0     \* next recorded run
-  \/ Ev.ev \notin {"mark", "block", "wl_append", "wakeup", "wakeup_all", "unblocked", "reset"} /\ UNCHANGED <<holder, qs, flagged, fin, joined>>
+  \/ Ev.ev \notin {"mark", "block", "wl_append", "wakeup", "wakeup_all", "wl_rekey", "unblocked", "reset"} /\ UNCHANGED <<holder, qs, flagged, fin, joined>>
   \/ Is("mark") /\ Ev.m \notin {"acq", "rel", "fin", "joined"} /\ UNCHANGED <<holder, qs, flagged, fin, joined>>
 Next == l <= Len(Rec) /\ Step /\ l' = l + 1
 Spec == Init /\ [][Next]_vars
-QueuesDisjoint == \A a, b \in qs : a # b => \A i \in 1..Len(a) : \A j \in 1..Len(b) : a[i] # b[j]
-QueuedAreFlagged == \A s \in qs : \A k \in 1..Len(s) : s[k] \in flagged
+QueuesDisjoint == \A a, b \in qs : a # b => Elems(a.q) \cap Elems(b.q) = {} /\ a.k # b.k
+QueuedAreFlagged == \A s \in qs : Elems(s.q) \subseteq flagged
 Accepted == IF TLCGet("stats").diameter = Len(Rec) + 1 THEN TRUE
             ELSE PrintT(<<"REJECTED at record", TLCGet("stats").diameter, Rec[TLCGet("stats").diameter]>>) /\ FALSE
 =============================================================================
